@@ -70,6 +70,11 @@ pub mod task {
     {
         super::spawn(future)
     }
+
+    /// yields to the (simulated) scheduler once
+    pub async fn yield_now() {
+        simrt::yield_now().await
+    }
 }
 
 pub fn spawn<F>(future: F) -> task::JoinHandle<F::Output>
@@ -100,6 +105,68 @@ pub mod time {
     }
     pub fn sleep(duration: Duration) -> Sleep {
         Sleep(simrt::sleep(duration))
+    }
+
+    /// virtual-clock instant
+    #[derive(Clone, Copy, Debug, PartialEq, Eq, PartialOrd, Ord)]
+    pub struct Instant(u64);
+    impl Instant {
+        pub fn now() -> Instant {
+            Instant(simrt::now())
+        }
+        pub fn elapsed(&self) -> Duration {
+            Duration::from_nanos(simrt::now().saturating_sub(self.0))
+        }
+        pub fn duration_since(&self, earlier: Instant) -> Duration {
+            Duration::from_nanos(self.0.saturating_sub(earlier.0))
+        }
+    }
+    impl std::ops::Add<Duration> for Instant {
+        type Output = Instant;
+        fn add(self, d: Duration) -> Instant {
+            Instant(self.0.saturating_add(d.as_nanos() as u64))
+        }
+    }
+    pub fn sleep_until(deadline: Instant) -> Sleep {
+        Sleep(simrt::sleep_ns(deadline.0.saturating_sub(simrt::now())))
+    }
+
+    pub mod error {
+        #[derive(Debug, PartialEq, Eq)]
+        pub struct Elapsed(());
+        impl Elapsed {
+            pub(crate) fn new() -> Self {
+                Elapsed(())
+            }
+        }
+        impl std::fmt::Display for Elapsed {
+            fn fmt(&self, f: &mut std::fmt::Formatter<'_>) -> std::fmt::Result {
+                write!(f, "deadline has elapsed")
+            }
+        }
+        impl std::error::Error for Elapsed {}
+    }
+
+    /// `tokio::time::timeout`: the future is polled first, then the timer (as tokio does)
+    pub struct Timeout<F> {
+        fut: Pin<Box<F>>,
+        delay: simrt::Sleep,
+    }
+    impl<F: Future> Future for Timeout<F> {
+        type Output = Result<F::Output, error::Elapsed>;
+        fn poll(self: Pin<&mut Self>, cx: &mut Context<'_>) -> Poll<Self::Output> {
+            let this = self.get_mut();
+            if let Poll::Ready(v) = this.fut.as_mut().poll(cx) {
+                return Poll::Ready(Ok(v));
+            }
+            match Pin::new(&mut this.delay).poll(cx) {
+                Poll::Ready(()) => Poll::Ready(Err(error::Elapsed::new())),
+                Poll::Pending => Poll::Pending,
+            }
+        }
+    }
+    pub fn timeout<F: Future>(duration: Duration, future: F) -> Timeout<F> {
+        Timeout { fut: Box::pin(future), delay: simrt::sleep(duration) }
     }
 }
 
